@@ -503,6 +503,12 @@ func (s *Specs) loadSpecFile(w *World, path string, pkg *packages.Package, trust
 			cur.Lets = append(cur.Lets, LetDef{Name: strings.TrimSpace(rest[:eq]), Expr: e, Src: rest})
 		case "callback":
 			// callback (Iface).Method as pkg.FuncType
+			if mf := regexp.MustCompile(`^functype\s+(\S+)$`).FindStringSubmatch(rest); mf != nil && cur != nil {
+				// callback functype pkg.FuncType : the closure is handed out as a value of that named function type and must
+				// refine the function type's contract (checked where the closure is created)
+				cur.Callback = "functype " + qualifyTypeName(mf[1], pkg, w)
+				continue
+			}
 			m := regexp.MustCompile(`^(\S+)\s+as\s+(\S+)$`).FindStringSubmatch(rest)
 			if m == nil || cur == nil {
 				return fail(l, "callback (Iface).Method as FuncType")
